@@ -476,6 +476,7 @@ pub fn run_c18(args: &[String]) {
     if flag(args, "--worker").is_some() { return worker_c18(args); }
     let out_path = flag(args, "--out").expect("--out").to_string();
     let _ = std::fs::remove_file(&out_path);
+    let _ = std::fs::remove_file(format!("{out_path}.summary"));
     let prog = format!("{out_path}.progress");
     let exe = std::env::current_exe().unwrap();
     let mut start = 0u64;
@@ -530,7 +531,13 @@ fn worker_c18(args: &[String]) {
     };
     let mut counts = std::collections::BTreeMap::<String, usize>::new();
     let total = ill.len() as u64 + n;
+    // the inputs are dealt round-robin to `--shards` worker processes (each with its own output file)
+    let (shard, nshards) = (flag_u(args, "--shard", 0), flag_u(args, "--shards", 1).max(1));
+    let (cap_none, cap_panic) = ((50 / nshards as usize).max(4), (40 / nshards as usize).max(4));
+    let mut mine = 0u64;
     for i in start..total {
+        if i % nshards != shard { continue; }
+        mine += 1;
         std::fs::write(&prog, format!("{i}")).unwrap();
         let mut rng = seed_rng(seed.wrapping_mul(1000003).wrapping_add(i));
         let (id, text, keep_all) = if (i as usize) < ill.len() {
@@ -544,11 +551,13 @@ fn worker_c18(args: &[String]) {
         let key = format!("{}|{}|{}", r["outcome"].as_str().unwrap(), r["loc"].as_str().unwrap(), r["fault_op"].as_str().unwrap_or(""));
         let c = counts.entry(key).or_insert(0);
         *c += 1;
-        if r["outcome"] == "none" && *c > 50 && !keep_all { continue; }
-        if r["outcome"] == "panic" && *c > 40 { continue; }
+        if r["outcome"] == "none" && *c > cap_none && !keep_all { continue; }
+        if r["outcome"] == "panic" && *c > cap_panic { continue; }
         writeln!(f, "{}", r).unwrap();
         f.flush().unwrap();
     }
     std::fs::write(&prog, format!("{total}")).unwrap();
-    std::fs::write(format!("{out_path}.summary"), json!({"inputs": total, "outcomes_last_worker": counts}).to_string()).unwrap();
+    // (a restarted worker only counts the inputs after the one that killed its predecessor: add to what is there)
+    let prev: u64 = std::fs::read_to_string(format!("{out_path}.summary")).ok().and_then(|t| serde_json::from_str::<J>(&t).ok()).and_then(|j| j["inputs"].as_u64()).unwrap_or(0);
+    std::fs::write(format!("{out_path}.summary"), json!({"inputs": prev + mine, "outcomes_last_worker": counts}).to_string()).unwrap();
 }
